@@ -220,6 +220,9 @@ def run_real(case: Dict[str, Any], trace: Any = None, pipeline: Any = None) -> D
     import copy
 
     ctx = materialise_odd(copy.deepcopy(case.get("ctx") or {}))
+    from . import components as _components
+
+    _components.INIT_FAULT["kind"] = case.get("init_fault")  # construction-time fault, armed for this call only
     try:
         res = pipeline.process(Payload(build_data(case.get("data")), ctx))
         out.update(ok=True, data=norm_data(res.data), ctx=norm_ctx(res.context), published=rec.records,
@@ -232,4 +235,6 @@ def run_real(case: Dict[str, Any], trace: Any = None, pipeline: Any = None) -> D
             tb = tb.tb_next
         out.update(ok=False, exc=exc, exc_type=type(exc).__name__, published=rec.records, stage="run",
                    tb_funcs=tb_funcs, n_last_nodes=len(getattr(pipeline.orchestrator, "last_nodes", [])))
+    finally:
+        _components.INIT_FAULT["kind"] = None
     return out
